@@ -20,3 +20,46 @@ package proto
 //@ func (x *Mutation) GetValues() (r []*protocol.KVTransfer)
 //@   ensures x != nil ==> r == x.Values
 //@   ensures x == nil ==> r == nil
+
+//@ func (x *LogEntry) GetVersion() (r LogVersion)
+//@   ensures x != nil ==> r == x.Version
+//@   ensures x == nil ==> r == LogVersion_UNKNOWN_VERSION
+//@ func (x *LogEntry) GetData() (r []byte)
+//@   ensures x != nil ==> r == x.Data
+//@   ensures x == nil ==> r == nil
+//@ func (x *LogEntry) GetChecksum() (r uint64)
+//@   ensures x != nil ==> r == x.Checksum
+//@   ensures x == nil ==> r == 0
+
+// Generated reset/decode code (protoc-gen-go / vtprotobuf), assumed: Reset zeroes every field; UnmarshalVT
+// MERGES the wire fields into the receiver (a field absent from the wire keeps its previous value), which
+// is why a reused message must be reset before every decode.
+//@ spec wireHasVersion(s string) bool
+//@ spec wireVersion(s string) LogVersion
+//@ spec wireHasData(s string) bool
+//@ spec wireData(s string) string
+//@ spec wireHasChecksum(s string) bool
+//@ spec wireChecksum(s string) uint64
+//@ func (x *LogEntry) Reset()
+//@   trusted
+//@   modifies x.Version, x.Data, x.Checksum
+//@   ensures x.Version == LogVersion_UNKNOWN_VERSION && x.Data == nil && x.Checksum == 0
+//@ func (m *LogEntry) UnmarshalVT(dAtA []byte) (err error)
+//@   trusted
+//@   modifies m.Version, m.Data, m.Checksum
+//@   ensures err == nil ==> m.Version == (wireHasVersion(str(dAtA)) ? wireVersion(str(dAtA)) : old(m.Version))
+//@   ensures err == nil ==> str(m.Data) == (wireHasData(str(dAtA)) ? wireData(str(dAtA)) : old(str(m.Data)))
+//@   ensures err == nil ==> m.Checksum == (wireHasChecksum(str(dAtA)) ? wireChecksum(str(dAtA)) : old(m.Checksum))
+//@ func (x *Mutation) Reset()
+//@   trusted
+//@   modifies x.Type, x.Key, x.Value, x.Keys, x.Values
+//@   ensures x.Type == MutationType_UNKNOWN_TYPE && x.Key == nil && x.Value == nil && x.Keys == nil && x.Values == nil
+//@ func (m *Mutation) UnmarshalVT(dAtA []byte) (err error)
+//@   trusted
+//@   modifies m.Type, m.Key, m.Value, m.Keys, m.Values
+//@ func (m *Mutation) SizeVT() (n int)
+//@   trusted
+//@   ensures n >= 0
+//@ func (m *LogEntry) SizeVT() (n int)
+//@   trusted
+//@   ensures n >= 0
